@@ -292,6 +292,7 @@ type stats struct {
 	appends, appendsIdle, appendsBusy         int
 	appendsHeld, rotations, appendsAfterRot   int
 	heldRemoves, heldRotations, syncs, reads  int
+	renameRotations                           int
 	bothPending, coalesced, droppedEv         int
 	forcedSync, padded, clamped, eof, batches int
 	bytes, maxBacklog                         int
@@ -309,10 +310,11 @@ func (s *stats) nontrivial() bool {
 }
 
 type run struct {
-	h    Hist
-	st   *stats
-	dir  string
-	path string
+	quietAppend bool // the write goes to a file that is not at the path yet: no Write notification
+	h           Hist
+	st          *stats
+	dir         string
+	path        string
 
 	w        *os.File // the appending writer of the current incarnation
 	exists   bool
@@ -765,7 +767,9 @@ func (r *run) appendBytes(n int) error {
 	if r.rotated {
 		r.st.appendsAfterRot++
 	}
-	r.enqueue(evW)
+	if !r.quietAppend {
+		r.enqueue(evW)
+	}
 	return nil
 }
 
@@ -864,7 +868,7 @@ func (r *run) remove(settleUs int) error {
 	return nil
 }
 
-func (r *run) recreate(n int) error {
+func (r *run) recreate(n int, byRename bool) error {
 	if r.exists || !r.h.Reopen {
 		return nil
 	}
@@ -898,6 +902,35 @@ func (r *run) recreate(n int) error {
 	r.rotated = true
 	r.mu.Unlock()
 	r.incSize = 0
+	if byRename {
+		// the finished file appears in one step: written under another name
+		// and renamed onto the path, the way log rotation and atomic writers
+		// do it. The only notification is the appearance of the path (a
+		// Create); no Write follows until the next append.
+		tmp := r.path + ".incoming"
+		w, err := os.OpenFile(tmp, os.O_CREATE|os.O_EXCL|os.O_APPEND|os.O_WRONLY, 0o644)
+		if err != nil {
+			return errInconclusive{"harness could not re-create: " + err.Error()}
+		}
+		r.w = w
+		r.exists = true
+		r.st.rotations++
+		r.st.renameRotations++
+		if wasHeld {
+			r.st.heldRotations++
+		}
+		r.quietAppend = true
+		err = r.appendBytes(n)
+		r.quietAppend = false
+		if err != nil {
+			return err
+		}
+		if err := os.Rename(tmp, r.path); err != nil {
+			return errInconclusive{"harness could not rename into place: " + err.Error()}
+		}
+		r.enqueue(evC)
+		return nil
+	}
 	w, err := os.OpenFile(r.path, os.O_CREATE|os.O_EXCL|os.O_APPEND|os.O_WRONLY, 0o644)
 	if err != nil {
 		return errInconclusive{"harness could not re-create: " + err.Error()}
@@ -1178,7 +1211,7 @@ func runHist(h Hist, st *stats) (err error) {
 		case kRemove:
 			e = r.remove(op.N)
 		case kRecreate:
-			e = r.recreate(op.N)
+			e = r.recreate(op.N, op.M == 1)
 		case kDeliver:
 			r.deliver(op.N)
 		}
@@ -1276,6 +1309,7 @@ func check(c Case) error {
 			l(s.rotations > 1, "rotation>=2")
 			l(s.heldRemoves > 0, "remove-while-consumer-held")
 			l(s.heldRotations > 0, "rotation-while-consumer-held")
+			l(s.renameRotations > 0, "re-created-by-rename(create-only)")
 			l(s.bothPending > 0, "write+delete-both-pending-at-select")
 			l(s.eof > 0, "plain-eof-after-remove")
 			l(s.forcedSync > 0, "forced-sync(poll proviso)")
@@ -1381,7 +1415,11 @@ func genHist(t *rapid.T, layer string) Hist {
 	}
 	recreateOp := func() {
 		n := pick(t, "first", [2]int{1, 1}, [2]int{2, 12}, [2]int{2, 200})
-		add(Op{K: kRecreate, N: n})
+		byRename := 0
+		if rapid.IntRange(0, 2).Draw(t, "byRename") == 0 {
+			byRename = 1 // the finished file is renamed onto the path: a Create and nothing else
+		}
+		add(Op{K: kRecreate, N: n, M: byRename})
 		exists, incBytes = true, n
 		if h.Poll && incBytes < 1 {
 			incBytes = 1
